@@ -6,6 +6,8 @@ COMMON_ASSUME = [
 
 PROPS = {
     "C18": {
+        "claim": 'Kernel-checked theorems over the regenerated tables/masks/ranges: every LUT entry equals the bit-spread spec (decide +kernel on the tables extracted from the source on this run), the byte composition of Small/Mediu/LargeZOC equals bit interleaving for all i,j below 2^bits (by a bit-level split lemma, not enumeration), h2ij/ij2i/ij2j invert it, get_zoc picks a sufficient class for every depth<=29 and rejects depth>29, to/from_uniq(_ivoa) round-trip and are injective for all depth<=29, hash<12*4^depth.',
+        "note": 'Trusted: Lean kernel (axioms propext/Classical.choice/Quot.sound only), translator for tables, hand-written model of the composition code validated by differential testing in dev/release/+bmi2 builds. BMI2 variants are modelled (pdep/pext per Intel SDM) and tied by correspondence only; xor-network variants are not modelled.',
         "level": "proof",
         "profiles": ["debug", "release", "bmi2"],
         "trusted_base": [
@@ -17,4 +19,42 @@ PROPS = {
             "xor-network variants (LargeZOCxor; Small/MediuZOCxor exist only under cfg(test)) are never selected by get_zoc and are not modelled",
         ],
     },
+    "C07": {
+        "claim": 'Theorems for all pairs of well-formed operands of any depth mix: `and` is set intersection on plain MOCs, returns a MOC, result well formed. not/or/xor: executable loop-by-loop model tied bit-exactly to the code (exhaustive one-level universes, sampled two-level universe, random deep trees to depth 29, degenerate shapes, algebraic laws), semantics theorems still open (listed in evidence.open_statements).',
+        "note": 'PARTIAL proof: and proved; not/or/xor validated by correspondence + pointwise interval oracle, not yet proved. Trusted: Lean kernel, hand-written model of bmoc.rs.',
+        "level": "proof",
+        "trusted_base": ["Model/Bmoc.lean: hand-written mirror of BMOC::not/and/or/xor, go_up/go_down/dd_4_go_up, consume_while_*, not_in_cell_4_or/xor, pack"],
+        "open_statements": ["not_sem", "or_sem", "xor_sem", "moc_canonical (results packed => structural equality = set equality)"],
+        "assumptions": COMMON_ASSUME + ["operands are valid MOCs built through the public builder (BMOCBuilderUnsafe trusts its caller)"],
+    },
+    "C08": {
+        "claim": 'Theorem for all pairs of well-formed BMOCs with arbitrary flags and depth mixes: `and` is the pointwise minimum of the three-valued state maps and preserves well-formedness. not/or/xor: loop-by-loop model tied bit-exactly to the code on the exhaustive one-level three-state universe (all ordered pairs), sampled two-level universe and random deep trees biased to partial-over-full; the defect F1 in `or` was found this way and repaired (fix: commit).',
+        "note": 'PARTIAL proof: and3_sem/and_wf proved; not3/or3/xor3 validated by correspondence + pointwise three-valued interval oracle. Trusted: Lean kernel, hand-written model.',
+        "level": "proof",
+        "trusted_base": ["Model/Bmoc.lean: hand-written mirror of the four operators (see C07)"],
+        "open_statements": ["not3_sem", "or3_sem", "xor3_sem", "or_wf", "xor_wf", "not_wf"],
+        "assumptions": COMMON_ASSUME + ["operands are well-formed BMOCs (any flags, packed or not)"],
+    },
+    "C09": {
+        "claim": 'Theorems: Cell::new inverts build_raw_value for every depth<=depth_max<=29 and hash<12*4^depth, raw values fit u64, raw order is z-order on disjoint cells (entries of a well-formed list are strictly increasing), `and` preserves well-formedness. Views (flat_iter, flat_iter_cell, to_flat_array, deep_size, size_hint, to_ranges, into_iter) are modelled and compared on every BMOC produced by builders and by operator histories of length 1..6, with a direct well-formedness + view-agreement oracle.',
+        "note": 'PARTIAL proof: encoding + and_wf proved; other producers and the views validated by correspondence/oracle. BMOCBuilderUnsafe trusts its caller (hypothesis WF).',
+        "level": "proof",
+        "trusted_base": ["Model/Bmoc.lean: raw encoding, views (flat_iter, flat_iter_cell, deep_size, to_ranges, into_iter)"],
+        "open_statements": ["not_wf", "or_wf", "xor_wf", "pack_wf", "flat_iter_spec", "to_ranges_spec", "deep_size_eq_length", "cover_rec_structure (coverage outputs)"],
+        "assumptions": COMMON_ASSUME + ["BMOCBuilderUnsafe::push trusts its caller: WF of user-built BMOCs is a hypothesis"],
+    },
+    "C15": {
+        "claim": 'Theorems: each pack pass never lengthens the list, pack ends on a fixed point of the pass (a further pass merges nothing), to_lower_depth rejects new_depth>=depth_max. The fixed-depth builder is modelled as a state machine with explicit drain points and compared with the code for all push-sequence families x 9 capacities x 9 depths; pack/to_lower_depth on exhaustive universes and random trees; oracles check pushed-set equality, map preservation, no four full siblings, the lower-depth rule.',
+        "note": 'PARTIAL proof: structural pack theorems proved; pack_sem/fixed_builder_sem/to_lower_depth_sem open. Trusted: Lean kernel, hand-written model, Vec capacity assumption.',
+        "level": "proof",
+        "trusted_base": ["Model/Bmoc.lean: pack (in-place compaction re-expressed as a pass function iterated to a fixed point), to_lower_depth, BMOCBuilderFixedDepth as a state machine",
+                         "Vec::with_capacity(n) has capacity exactly n for u64 and n >= 1 (drain happens when len == n)",
+                         "sort_unstable + dedup modelled as insertion sort + adjacent-duplicate removal"],
+        "open_statements": ["pack_sem", "pack_wf", "pack_no_four_full", "fixed_builder_sem", "to_lower_depth_sem"],
+        "assumptions": COMMON_ASSUME,
+    },
 }
+
+HOOK_COMMITS = []
+
+NOT_CLAIMED = {("C%02d" % i): "check not built yet in this round (the technique applies; see DESIGN.md section 5)" for i in range(1, 21)}
